@@ -73,19 +73,23 @@ def check_table(ctx):
                 names = {n: n for n in set(class_names(st.test)) | {"Rz", "Rx", "Bra", "Ket"}}
                 if cname in ("Bra", "Ket"):
                     bad = None
-                    for bits in itertools.product([0, 1], repeat=2):
+                    for bits in [b for k in range(4) for b in itertools.product([0, 1], repeat=k)]:
                         env = dict(BASE, **names)
-                        env.update({boxp: Stub(bitstring=list(bits)), "isinstance": isi})
+                        env.update({boxp: Stub(bitstring=tuple(bits)), "isinstance": isi})
                         try:
                             term = eval_branch(st.body, env)
-                        except (KeyError, ArityError, TypeError) as e:
+                        except ArityError as e:
+                            bad = bad or "%s%s: ill-formed term: %s" % (cname, bits, e)
+                            continue
+                        except (KeyError, TypeError) as e:
                             raise AnalysisError("gate2zx branch %s outside the foldable vocabulary: %s" % (cname, e))
-                        vec = np.zeros(4)
-                        vec[bits[0] * 2 + bits[1]] = 1
-                        ref = vec.reshape(1, 4) if cname == "Bra" else vec.reshape(4, 1)
-                        if not (isinstance(term, T) and (term.m, term.n) == ((2, 0) if cname == "Bra" else (0, 2)) and proportional(term.M, ref)):
-                            bad = "%s%s -> %s" % (cname, bits, np.round(term.M, 3).tolist() if isinstance(term, T) else term)
-                    ctx.ob("R16.1", cons, bad is None, found=bad or "basis %s of every bitstring (2 qubits enumerated)" % ("effect" if cname == "Bra" else "state"),
+                        k = len(bits)
+                        vec = np.zeros(2 ** k)
+                        vec[int("".join(map(str, bits)) or "0", 2)] = 1
+                        ref = vec.reshape(1, 2 ** k) if cname == "Bra" else vec.reshape(2 ** k, 1)
+                        if not (isinstance(term, T) and (term.m, term.n) == ((k, 0) if cname == "Bra" else (0, k)) and proportional(term.M, ref)):
+                            bad = bad or "%s%s -> %s" % (cname, bits, np.round(term.M, 3).tolist() if isinstance(term, T) else term)
+                    ctx.ob("R16.1", cons, bad is None, found=bad or "basis %s of every bitstring (0 to 3 qubits enumerated)" % ("effect" if cname == "Bra" else "state"),
                            required="proportional to the basis vector of the bitstring, one wire per bit", mod=ZX, node=st, sig="entry-" + cname)
                 elif cname in REF:
                     bad = None
